@@ -215,6 +215,7 @@ func oracleC05CustomCodec(o OSM, hooks int) {
 //@   props C05
 //@   oracle
 //@   covers (schema)C05#format
+//@   covers osm.findType
 func oracleC05Elements(idSel int, withMeta bool) {
 	id := int64(idSel%100000 + 100001)
 	meta := ""
@@ -226,6 +227,14 @@ func oracleC05Elements(idSel int, withMeta bool) {
 		`{"type":"way","id":%d,"nodes":[%d,%d]%s,"tags":{"highway":"path"}},`+
 		`{"type":"relation","id":%d,"members":[{"type":"way","ref":%d,"role":"outer"},{"type":"node","ref":%d,"role":""}]%s,"tags":{"type":"multipolygon"}}]}`,
 		id, meta, id+1, id, id+5, meta, id+2, id+1, id, meta)
+	if idSel%2 == 0 {
+		// key order inside an element is free: "type" need not come first (members carry a "type" of their own)
+		doc = fmt.Sprintf(`{"version":0.6,"generator":"g","osm3s":{"x":1},"elements":[`+
+			`{"id":%d,"lon":-2.5,"lat":1.5%s,"tags":{"name":"n"},"type":"node"},`+
+			`{"nodes":[%d,%d],"id":%d%s,"tags":{"highway":"path"},"type":"way"},`+
+			`{"members":[{"type":"way","ref":%d,"role":"outer"},{"type":"node","ref":%d,"role":""}],"id":%d%s,"type":"relation","tags":{"type":"multipolygon"}}]}`,
+			id, meta, id, id+5, id+1, meta, id+1, id, id+2, meta)
+	}
 	var o OSM
 	err := json.Unmarshal([]byte(doc), &o)
 	vAssert(err == nil)
